@@ -199,6 +199,11 @@ def check(case, ctx):
                 if not np.allclose(lv, iv, rtol=1e-9, atol=1e-9 * max(1.0, float(np.abs(iv).max(initial=0)))):
                     raise Violation("last value of cumint differs from integrate", got=lv.tolist(), expected=iv.tolist())
                 classes.append("rel:integrate")
+    # history independence: the main call again after the other calls on this Grid
+    if mode == "plain":
+        must_return("cumsum with another boundary treatment", grid.cumsum, da, list(case["op_axes"]), boundary="fill", fill_value=41.5)
+        again = must_return("Grid.cumsum (repeated)", grid.cumsum, da, ax_arg, **kw)
+        compare(again, exp, exp_dims, "the same cumsum repeated after other calls on the same Grid", exact=exact)
     return {"nontrivial": bool(lead or len(case["op_axes"]) > 1), "classes": classes}
 
 
